@@ -159,8 +159,9 @@ def horizon_for(it, N):
     return N
 
 
-def build(items, results, N, builders, suffix=""):
-    """builders: functions (ctx) -> None that add programs/claims; a builder may raise Skip."""
+def build(items, results, N, builders, suffix="", horizon=None):
+    """builders: functions (ctx) -> None that add programs/claims; a builder may raise Skip.
+    horizon: optional dict (item id, point index) -> N to use instead of the default horizon"""
     traces, meta, notes = [], {}, {}
     for it in items:
         res = results.get(it["id"])
@@ -168,7 +169,7 @@ def build(items, results, N, builders, suffix=""):
             notes["no_result"] = notes.get("no_result", 0) + 1
             continue
         for pi, pt in enumerate(res.get("points_used", [])):
-            ctx = TraceCtx(it, res, pi, horizon_for(it, N))
+            ctx = TraceCtx(it, res, pi, horizon[(it["id"], pi)] if horizon and (it["id"], pi) in horizon else horizon_for(it, N))
             try:
                 for b in builders:
                     b(ctx)
